@@ -79,7 +79,7 @@ const (
 )
 
 func c15GenVrfCase(idx int, r *rand.Rand) *c15Case {
-	c := &c15Case{idx: idx, r: r, guards: map[string]string{}, bursts: map[int][]c15Ann{}, hist: true, hasNon: true}
+	c := &c15Case{idx: idx, r: r, guards: map[string]string{}, bursts: map[int][]c15Ann{}, hist: true, hasNon: true, apTarget: -1}
 	c.always = r.IntN(5) == 0
 	c.global = &api.Global{Asn: simLocalAS, RouterId: "1.1.1.1", RouteSelectionOptions: &api.RouteSelectionOptionsConfig{
 		AlwaysCompareMed: c.always, ExternalCompareRouterId: r.IntN(4) == 0}}
